@@ -95,6 +95,17 @@ def run(prop, tier, seed, replay=None):
         if p.returncode != 0:
             raise vf.ToolError(f"avh_c05 mutate failed: {p.stderr[-500:]}")
         cases += [json.loads(x) for x in mut.read_text().splitlines() if x.strip()]
+        if prop == "C05":
+            # hostile container files, single-object messages, compressed blocks
+            fcases = work / "files.cases.ndjson"
+            p = subprocess.run([str(avh_c05), "gen-files", "--seed", str(seed), "--per", "10" if tier == "quick" else "60",
+                                "--out", str(fcases), "--first-id", str(len(cases))], stdout=subprocess.PIPE, stderr=subprocess.PIPE, text=True)
+            if p.returncode != 0:
+                raise vf.ToolError(f"avh_c05 gen-files failed: {p.stderr[-500:]}")
+            cases += [json.loads(x) for x in fcases.read_text().splitlines() if x.strip()]
+            # a schema without finite values (see known finding C05-uninhabited-record-recursion)
+            rec = {"k": "record", "name": "R", "fields": [{"name": "r", "type": {"k": "ref", "name": "R"}}]}
+            cases.append({"id": len(cases), "entry": "datum", "s": rec, "bytes": [], "origin": "uninhabited"})
         limits = [4096, 1 << 20] if tier == "quick" else [4096, 65536, 1 << 20, 512 << 20]
     events = []
     # split the cases over the limits (each case under one limit; the enumerated set under the smallest and the largest)
